@@ -47,6 +47,11 @@ def main(tier):
     D("tailret", "{ RdV = d9(RsV); }", [("d9", "int32_t", ["int32_t p"], "{ if (p > 5) { return 1; } else { if (p > 2) { return 2; } else { return 3; } } }")])
     D("retcmp", "{ RdV = d10(RsV) + 1; }", [("d10", "int32_t", ["int32_t p"], "{ return p > 3; }")])
     D("argswap", "{ int32_t a = RsV; int32_t b = RtV; RdV = d11(b, a); }", [("d11", "int32_t", ["int32_t a", "int32_t b"], "{ return a - b; }")], a32)
+    # explicit casts at the call site (the cast decides how the value is extended to the parameter type) and on returned values
+    for pt in ("int64_t", "uint64_t", "int32_t", "uint16_t"):
+        for ct in gen.TYPES:
+            D(f"argcast;{pt};{ct}", f"{{ uint32_t u = RsV; int32_t s = RtV; RddV = (int64_t) dc_{pt[:-2]}(({ct}) u) + dc_{pt[:-2]}(({ct}) s) * 3; RyyV = dc_{pt[:-2]}(({ct}) RsV); }}",
+              [(f"dc_{pt[:-2]}", pt, [f"{pt} v"], "{ return v; }")])
     for it in items:
         it["states_fn"] = c05.trip_states
     fam.replay_witnesses()
